@@ -1,11 +1,20 @@
 //! Conformance harness for minidump-writer: shared pieces of `mdw-drive` and `mdw-target`.
 pub mod dirops;
+pub mod dumprun;
 pub mod imgops;
 pub mod maps;
+pub mod mdparse;
 pub mod recdest;
 pub mod rng;
 pub mod sanitize;
 pub mod synth;
+pub mod target;
 pub mod trace;
 
 pub use serde_json::{json, Value};
+
+static SEQ: std::sync::atomic::AtomicU64 = std::sync::atomic::AtomicU64::new(0);
+/// one process-wide sequence for hook events and destination calls (they happen on one thread)
+pub fn next_seq() -> u64 {
+    SEQ.fetch_add(1, std::sync::atomic::Ordering::SeqCst) + 1
+}
